@@ -236,10 +236,14 @@ Fixpoint compile (s : stmt) : prog :=
       Do (fun o _ => err (o <| serial := S (serial o) |>) (EUser cls (serial o)))
   | STry body hs fin =>
       Finally (Catch (compile_list body)
-                     (fun e => match find_handler hs e with
-                               | Some h => emit (fun o _ => 3%Z :: exn_code o e) ;;; h
-                               | None => Raise e
-                               end))
+                     (fun e => Dyn (fun o _ =>
+                               (* a coroutine that is being closed handles nothing: what passes by is (a replacement
+                                  of) its GeneratorExit *)
+                               if Nat.ltb 0 (closing o) then Raise e
+                               else match find_handler hs e with
+                                    | Some h => emit (fun o _ => 3%Z :: exn_code o e) ;;; h
+                                    | None => Raise e
+                                    end)))
               (compile_list fin)
   | SWithLock l body => with_lock l (compile_list body)
   | SLockAvail l => emit (fun o a => [5; Z.of_nat l; if lock_available o l a then 1 else 0]%Z)
@@ -303,7 +307,7 @@ Fixpoint compile_list (ss : list stmt) : prog :=
 Definition empty_objs (start : xtime) (nroots : nat) : objs :=
   {| kern := loop_init nroots start; sigs := []; astat := repeat AsNew nroots; notifs := []; flags := [];
      tracked := []; tasks := []; scopes := []; locks := []; queues := []; chans := []; ress := [];
-     tnames := []; snames := []; trace := []; serial := 0 |}.
+     tnames := []; snames := []; trace := []; serial := 0; closing := 0 |}.
 
 (** [Resources(a=c)]: one resource with a tracked level; [Capacities(a=c)]: a borrowed share holding everything
     of a private Resources(a=c) *)
